@@ -156,6 +156,8 @@ class RxScn(Scenario):
                     return rx.throw(RuntimeError('handler observable fails'))
                 if scn.kind == 'rr-two':
                     return rx.from_iterable([P(b'answer', b'am'), P(b'second')])
+                if scn.empty in ('meta', 'data'):
+                    return rx.of(P(None, b'only-meta') if scn.empty == 'meta' else P(b'only-data'))
                 return rx.empty() if scn.empty else rx.of(P(b'answer', b'am'))
 
             async def request_stream(self, payload):
@@ -331,9 +333,10 @@ class RxScn(Scenario):
             if sig not in ('NC',) or obs.signals[0][1] != (b'answer', b'am'):
                 out.append(('C20.elements-preserved', 'C20.elements-preserved | %s | response | two-element-observable' % self.api, 'observer signals %s' % (obs.signals,)))
         elif self.kind == 'rr' and not disposed:
-            want = 'C' if self.empty else 'NC'
-            if sig != want or (not self.empty and obs.signals[0][1] != (b'answer', b'am')):
-                out.append(('C20.elements-preserved', 'C20.elements-preserved | %s | response | %s' % (self.api, 'empty' if self.empty else 'non-empty'), 'observer signals %s' % (obs.signals,)))
+            want = 'C' if self.empty is True else 'NC'
+            answer = {'meta': (b'', b'only-meta'), 'data': (b'only-data', b'')}.get(self.empty, (b'answer', b'am'))
+            if sig != want or (self.empty is not True and obs.signals[0][1] != answer):
+                out.append(('C20.elements-preserved', 'C20.elements-preserved | %s | response | %s' % (self.api, {True: 'empty', False: 'non-empty', 'meta': 'metadata-only', 'data': 'data-only'}[self.empty]), 'observer signals %s' % (obs.signals,)))
             if ('request_response', (b'req', b'rm')) not in calls:
                 out.append(('C20.delegate-invoked', 'C20.delegate-invoked | %s | request_response' % self.api, 'delegate calls %s' % calls))
         elif self.kind == 'fnf' and not disposed:
@@ -526,7 +529,7 @@ def make_units(tier):
                                       empty=False, bound=1 if tier == 'quick' else 2, ending=ending))
                     units.append(dict(api=api, kind='channel-corehandler', k=n_el, limit=limit, err=None, source='plain', dispose=False, up=2, flavour='tcp',
                                       empty=False, bound=1 if tier == 'quick' else 2, ending=ending))
-        for kind, empty in (('rr', False), ('rr', True), ('rr-error', False), ('fnf', False), ('push', False)):
+        for kind, empty in (('rr', False), ('rr', True), ('rr', 'meta'), ('rr', 'data'), ('rr-error', False), ('fnf', False), ('push', False)):
             for flavour in ('tcp', 'msg'):
                 units.append(dict(api=api, kind=kind, k=0, limit=MAXN, err=None, source='plain', dispose=False, up=0, flavour=flavour, empty=empty, bound=bound))
     return units
